@@ -138,6 +138,12 @@ def gen_ham(rng, n, kind):
                 v = rng.choice([1, 2, 0.5, -1])
                 D[t, t + 1] = v
                 D[t + 1, t] = -v
+        elif pk == 'weak':
+            # weak pairing (dyadic, 8e-3 .. 1e-6): the Bogoliubov matrix has a nearly singular annihilation block
+            i, j = rng.sample(range(n), 2)
+            v = rng.choice(WEAK_DELTA) * rng.choice([1, -1, 1j])
+            D[i, j] = v
+            D[j, i] = -v
         elif pk == 'far':
             v = rng.choice([1, 2, -0.5, 1j])
             D[0, n - 1] = v
@@ -157,8 +163,13 @@ def gen_ham(rng, n, kind):
     return M, D, const, mu
 
 
+# weak pairing amplitudes (dyadic).  Smaller ones (2^-17, 2^-20) give Bogoliubov amplitudes within two decades of
+# EQ_TOLERANCE = 1e-8, where the thresholds of the library decide differently from exact arithmetic (measured: O(1)
+# residuals on the unmodified code) - outside the regime the check can decide.
+WEAK_DELTA = [2.0 ** -7, 2.0 ** -10, 2.0 ** -14]
+
 HAM_KINDS = ['diag', 'degenerate', 'spinblock', 'generic', 'generic', 'diag+bcs', 'diag+far', 'degenerate+bcs',
-             'generic+bcs', 'generic+generic', 'spinblock+generic', 'diag+generic', 'degenerate+far']
+             'generic+bcs', 'generic+generic', 'spinblock+generic', 'diag+generic', 'degenerate+far', 'diag+weak', 'generic+weak']
 
 
 def cjson(M):
@@ -306,14 +317,30 @@ def annihilation_block_singular(W, n):
     return bool(sv.min() < 1e-8)
 
 
+WEAK_STATE_TOL = 1e-7
+
+
 def check_ham(ctx, s, c, M, D, const, mu, spec_reqs, model_reqs, n_occ):
-    of = ctx.of
+    """build the QuadraticHamiltonian of (M, Delta, const, mu) and check it against the independently built dense matrix"""
     n = M.shape[0]
-    QH = of.ops.QuadraticHamiltonian
-    Hd = dense_H(M - mu * np.eye(n), D, const)
+    try:
+        H = ctx.of.ops.QuadraticHamiltonian(M.copy(), None if D is None else D.copy(), const, mu)
+    except Exception as e:
+        s.violate('QuadraticHamiltonian(...) raised %s: %s' % (type(e).__name__, e), c, {})
+        return
+    check_obj(ctx, s, c, H, M - mu * np.eye(n), D, const, spec_reqs, model_reqs, n_occ)
+
+
+def check_obj(ctx, s, c, H, Mc, D, const, spec_reqs, model_reqs, n_occ):
+    """all oracles for the object `H`, which is claimed to represent  sum Mc a+a + 1/2 sum (Delta a+a+ + h.c.) + const
+    (Mc = combined Hermitian part); the dense reference is built from (Mc, Delta, const), never from the object"""
+    of = ctx.of
+    n = Mc.shape[0]
+    # weak pairing: nearly singular annihilation block, truncations below EQ_TOLERANCE are amplified (see c11.WEAK_TOL)
+    TOL = WEAK_STATE_TOL if '+weak' in str(c.get('kind', '')) else globals()['TOL']
+    Hd = dense_H(Mc, D, const)
     w = np.linalg.eigvalsh(Hd)
     try:
-        H = QH(M.copy(), None if D is None else D.copy(), const, mu)
         es, W, cst = H.diagonalizing_bogoliubov_transform()
         ge = H.ground_energy()
         conserving = bool(H.conserves_particle_number)
@@ -414,7 +441,7 @@ def stream_energies(ctx):
         s.count('oracle:subset-sum-spectrum')
         sp = np.array([rat_float(x) for x in a['spectrum']])
         s.float_comparisons += len(sp)
-        if sp.shape != w.shape or err(sp - w) > TOL:
+        if sp.shape != w.shape or err(sp - w) > (WEAK_STATE_TOL if '+weak' in str(c.get('kind', '')) else TOL):
             s.violate('subset sums of the orbital energies + constant are not the spectrum of H', c,
                       dict(ret, subset_sums=sp.tolist(), spectrum=w.tolist()))
     # Model: ground energy, default occupation energy, explicit energies
@@ -428,6 +455,120 @@ def stream_energies(ctx):
         for e_impl, e_mod, occ in zip(energies[1:], a['energies'], rq['occs']):
             if e_impl is not None and abs(e_impl - rat_float(e_mod)) > TOL:
                 s.disagree('energy of occupation %s' % occ, c, e_impl, rat_float(e_mod))
+    return s
+
+
+def stream_history(ctx):
+    s = Stream('history', 'ONE QuadraticHamiltonian object (conserving and non-conserving) that is diagonalised, then modified '
+               '(add_chemical_potential, constant, in-place entry edit, +=, -=, *=) or used in arithmetic (a * H, H + H2, H - H2: '
+               'the result replaces it), then diagonalised again, 2-4 times: after every step the transform, ground energy, '
+               'subset-sum spectrum and Gaussian states must describe the CURRENT operator (dense matrix rebuilt from the '
+               'independently tracked coefficients); distinct = distinct histories')
+    of = ctx.of
+    QH = of.ops.QuadraticHamiltonian
+    rng = rng_for(ctx.seed, 'c12-history')
+    N = budget(ctx.tier, 60, 500)
+    if ctx.drift:
+        N = max(N, 200)
+    spec_reqs, model_reqs = [], []
+    kinds = [k for k in HAM_KINDS if 'weak' not in k]
+    for t in range(N):
+        n = rng.choice([2, 2, 3, 3, 4])
+        kind = rng.choice(kinds)
+        M, D, const, mu = gen_ham(rng, n, kind)
+        hist = [{'op': 'new', 'kind': kind, 'M': [[[x.real, x.imag] for x in r] for r in M],
+                 'Delta': None if D is None else [[[x.real, x.imag] for x in r] for r in D], 'const': float(const), 'mu': float(mu)}]
+        try:
+            H = QH(M.copy(), None if D is None else D.copy(), const, mu)
+        except Exception as e:
+            s.violate('QuadraticHamiltonian(...) raised %s' % type(e).__name__, {'history': hist}, {})
+            continue
+        Mc = M - mu * np.eye(n)
+        Dc = None if D is None else D.copy()
+        cc = const
+        steps = rng.randint(2, 4)
+        failed = False
+        for step in range(steps + 1):
+            case = {'kind': 'history', 'n': n, 'history': [dict(h) for h in hist]}
+            s.case(case)
+            before = len(s.violations)
+            check_obj(ctx, s, case, H, Mc.copy(), None if Dc is None else Dc.copy(), cc, spec_reqs, model_reqs, 3)
+            if any(classify(v) is None for v in s.violations[before:]) or step == steps:
+                break
+            # ---- modify the object / replace it by the result of arithmetic
+            op = rng.choice(['mu', 'const', 'entry', 'iadd', 'isub', 'imul', 'rmul', 'add', 'sub'])
+            s.count('op:' + op)
+            try:
+                if op == 'mu':
+                    x = rng.choice([0.5, -1.0, 2.5, 0.25])
+                    H.add_chemical_potential(x)
+                    Mc = Mc - x * np.eye(n)
+                    hist.append({'op': 'add_chemical_potential', 'value': x})
+                elif op == 'const':
+                    x = rng.choice([1.5, -0.75, 2.0])
+                    H.constant = x
+                    cc = x
+                    hist.append({'op': 'constant=', 'value': x})
+                elif op == 'entry':
+                    i, j = rng.sample(range(n), 2)
+                    x = rng.choice([0.5, -1.0, 0.25])
+                    H.combined_hermitian_part[i, j] += x
+                    H.combined_hermitian_part[j, i] += x
+                    H.combined_hermitian_part[i, i] -= x
+                    Mc = Mc.copy()
+                    Mc[i, j] += x
+                    Mc[j, i] += x
+                    Mc[i, i] -= x
+                    hist.append({'op': 'combined_hermitian_part[i,j]+=,[j,i]+=,[i,i]-=', 'i': i, 'j': j, 'value': x})
+                elif op in ('iadd', 'isub', 'add', 'sub'):
+                    M2, D2, c2, mu2 = gen_ham(rng, n, rng.choice(kinds))
+                    if op in ('isub', 'sub') and Dc is None:
+                        # PolynomialTensor subtraction with a key only in the subtrahend is the known finding of C08
+                        # (the tensor is added): not the subject of this property, so the subtrahend gets no pairing then
+                        D2 = None
+                    H2 = QH(M2.copy(), None if D2 is None else D2.copy(), c2, mu2)
+                    sg = 1.0 if op in ('iadd', 'add') else -1.0
+                    if op == 'iadd':
+                        H += H2
+                    elif op == 'isub':
+                        H -= H2
+                    elif op == 'add':
+                        H = H + H2
+                    else:
+                        H = H - H2
+                    Mc = Mc + sg * (M2 - mu2 * np.eye(n))
+                    if D2 is not None:
+                        Dc = (np.zeros((n, n), dtype=complex) if Dc is None else Dc) + sg * D2
+                    cc = cc + sg * c2
+                    hist.append({'op': {'iadd': 'H += H2', 'isub': 'H -= H2', 'add': 'H = H + H2', 'sub': 'H = H - H2'}[op],
+                                 'M2': [[[x.real, x.imag] for x in r] for r in M2],
+                                 'Delta2': None if D2 is None else [[[x.real, x.imag] for x in r] for r in D2],
+                                 'const2': float(c2), 'mu2': float(mu2)})
+                else:
+                    a = rng.choice([2.0, 0.5, -1.0, -2.0])
+                    if op == 'imul':
+                        H *= a
+                    else:
+                        H = a * H
+                    Mc = a * Mc
+                    Dc = None if Dc is None else a * Dc
+                    cc = a * cc
+                    hist.append({'op': 'H *= a' if op == 'imul' else 'H = a * H', 'a': a})
+            except Exception as e:
+                s.violate('%s raised %s: %s' % (op, type(e).__name__, e), {'kind': 'history', 'n': n, 'history': hist}, {})
+                break
+    ans = ctx.driver.run([r for _, r, _, _ in spec_reqs])
+    for (c, _, w, ret), a in zip(spec_reqs, ans):
+        s.count('oracle:subset-sum-spectrum')
+        sp = np.array([rat_float(x) for x in a['spectrum']])
+        s.float_comparisons += len(sp)
+        if sp.shape != w.shape or err(sp - w) > TOL:
+            s.violate('after the history, subset sums of the orbital energies + constant are not the spectrum of the current H', c,
+                      dict(ret, subset_sums=sp.tolist(), spectrum=w.tolist()))
+    ans = ctx.driver.run([r for _, r, _, _ in model_reqs])
+    for (c, rq, ge, energies), a in zip(model_reqs, ans):
+        if abs(rat_float(a['ground']) - ge) > TOL:
+            s.disagree('ground_energy', c, ge, rat_float(a['ground']))
     return s
 
 
@@ -666,4 +807,4 @@ def replay(ctx, payload):
 
 
 def run(ctx):
-    return [stream_majorana(ctx), stream_energies(ctx), stream_slater(ctx), stream_canonical(ctx)]
+    return [stream_majorana(ctx), stream_energies(ctx), stream_history(ctx), stream_slater(ctx), stream_canonical(ctx)]
